@@ -32,7 +32,7 @@ func runC15(c *Ctx) {
 	runC15R6(c, "R6-client-first-element")
 	r.Rule("R7-header-parser-only-in-reverse-proxy", "the real-client-IP header parser is installed only under reverse-proxy mode (shared with C16.R4)", 1)
 	runParserUnderFlag(c, "R7-header-parser-only-in-reverse-proxy")
-	r.Rule("R9-rules-reach-matcher-verbatim", "the operator's skip-auth routes, skip-auth regexes and trusted-IP entries are never rewritten between option loading and the code that compiles them (no element store, reordering or reassignment outside pkg/apis/options); the loader installs no decode hook of its own", 4)
+	r.Rule("R9-rules-reach-matcher-verbatim", "the operator's skip-auth routes, skip-auth regexes and trusted-IP entries are never rewritten between option loading and the code that compiles them (no element store, reordering or reassignment outside pkg/apis/options); the loader installs no decode hook of its own and uses only its reviewed switches", 5)
 	r.Rule("R8-remote-address", "without a header parser the client address is the host part of RemoteAddr that net.ParseIP accepted", 2)
 	runRemoteIPRule(c, "R8-remote-address")
 
@@ -1059,6 +1059,7 @@ func runC15R2Combined(c *Ctx, rule string, isAllowedRoute *ssa.Function, methodF
 // fields outside pkg/apis/options and requires each use to be read-only (no element store, no sort/copy into it, no
 // append whose result is stored back), and every store to the fields to be inside pkg/apis/options.
 func runC15R9(c *Ctx, rule string) {
+	runLoaderSwitchesRule(c, rule)
 	// the loader hands the operator's strings to the options struct as the configuration library decodes them: its one
 	// decoder option selects the tag name and nothing else (no decode hook of the project's own that splits, trims or
 	// drops entries — a comma inside a regular expression must survive)
@@ -1145,5 +1146,69 @@ func runC15R9(c *Ctx, rule string) {
 		case !bad:
 			c.R.OK(rule, "read-only|"+name, "-", sprintf("%d load(s) of Options.%s outside option loading, all read-only", n, name))
 		}
+	}
+}
+
+// runLoaderSwitchesRule (C07.R11, also under C15.R9): how flags, environment and config file are merged into the options
+// is decided by a handful of switches on the viper instance in pkg/apis/options. They are a reviewed, closed list with
+// their constant arguments; any other viper call there (AllowEmptyEnv, SetEnvKeyReplacer, SetDefault, Set, a decode
+// hook) changes which value an option ends up with — an exported-but-empty OAUTH2_PROXY_SKIP_AUTH_STRIP_HEADERS
+// becoming "false", for one — without any option-handling code changing.
+func runLoaderSwitchesRule(c *Ctx, rule string) {
+	reviewed := map[string]string{ // viper method -> required constant first argument ("" = any)
+		"New":                   "",
+		"SetConfigFile":         "",
+		"SetConfigType":         "toml",
+		"SetEnvPrefix":          "OAUTH2_PROXY",
+		"AutomaticEnv":          "",
+		"SetTypeByDefaultValue": "true",
+		"ReadInConfig":          "",
+		"UnmarshalExact":        "",
+		"BindPFlag":             "",
+	}
+	n, bad := 0, false
+	for _, fn := range c.P.ModFns {
+		if prog.Short(prog.FnPkg(fn).Path()) != "pkg/apis/options" {
+			continue
+		}
+		for _, b := range fn.Blocks {
+			for _, in := range b.Instrs {
+				ci, ok := in.(ssa.CallInstruction)
+				if !ok {
+					continue
+				}
+				sc := ci.Common().StaticCallee()
+				if sc == nil || sc.Pkg == nil || sc.Pkg.Pkg.Path() != "github.com/spf13/viper" {
+					continue
+				}
+				n++
+				want, known := reviewed[sc.Name()]
+				key := "loader-switch|" + sc.Name() + "|" + fnKey(fn)
+				if !known {
+					bad = true
+					c.bad(rule, key, in, "the option loader calls viper."+sc.Name()+", which is not one of its reviewed switches: how flags, environment and config file combine into an option value changes for every option at once (an exported-but-empty environment variable overriding a default, a key being remapped, ...)", nil, 0)
+					continue
+				}
+				if want != "" {
+					args := ci.Common().Args
+					got := ""
+					if len(args) > 1 {
+						if k, isC := unwrap0(args[1]).(*ssa.Const); isC && k.Value != nil {
+							got = strings.Trim(k.Value.ExactString(), "\"")
+						}
+					}
+					if got != want {
+						bad = true
+						c.bad(rule, key, in, "the option loader's switch viper."+sc.Name()+" is no longer given "+want, nil, 0)
+					}
+				}
+			}
+		}
+	}
+	switch {
+	case n == 0:
+		c.R.Unknown(rule, "loader-switch|none", "-", "no viper call found in pkg/apis/options")
+	case !bad:
+		c.R.OK(rule, "loader-switch|all", "-", sprintf("%d viper call(s) in the option loader, all reviewed switches with their constant arguments", n))
 	}
 }
